@@ -6,6 +6,12 @@ CLAIMED = {
  "C02": ("exploration", "S", "deterministic simulation: the dependency is starved inside run (hold strategy) while everything else runs to quiescence; oracle exit(dep) < enter(dependent)", "5.C02"),
  "C03": ("exploration", "S", "deterministic simulation: every pre-barrier system held in turn; oracle exit(before) < enter(after); redundant-barrier metamorphic comparison", "5.C03"),
  "C04": ("exploration", "S", "deterministic simulation: run counters per generated call sequence under seeded schedules and pool sizes; shape-sum of the executed plan", "5.C04"),
+ "C05": ("exploration", "S", "deterministic simulation: simulated parallel dispatch vs dispatch_seq on the same dispatcher object (world and system states restored), non-commutative updates", "5.C05"),
+ "C07": ("exploration", "S", "deterministic simulation: batch window vs conflicting outer windows under hold/max-overlap schedules; inner dispatches re-checked with the C01-C04 oracles", "5.C07"),
+ "C11": ("exploration", "S", "deterministic simulation: rendezvous of all group heads of a stage on a pool with exactly enough workers; exact deadlock detection, no timeouts", "5.C11"),
+ "C12": ("exploration", "S", "deterministic simulation: task identity, start time and order of thread-local systems recorded in the event history under seeded schedules", "5.C12"),
+ "C13": ("exploration", "S", "deterministic simulation of the lifecycle (setup / remove / overwrite / setup again / dispatches incl. panicking ones / dispose) against a reference world and per-system lifecycle counters", "5.C13"),
+ "C14": ("fault_enumeration", "S", "fault injection: every system position of every generated plan panics once (three points), sibling phase arranged by the scheduler; containment oracles on the history and on the following dispatch", "5.C14"),
 }
 NA = {
  "C10": "placement / max_threads is a pure function of the registration sequence: no schedule, fault, crash point or environment choice exists for a simulator to vary (DESIGN.md section 6)",
